@@ -361,9 +361,16 @@ def mirrorPlan2 (h w : Nat) (axis : Nat) : Except Err Plan2 :=
 def warpPlan2 (h w : Nat) (T : Aff2) (m : Mode) : Except Err Plan2 :=
   if T.det = 0 then .error .degenerate else .ok ⟨h, w, T, m, none, ⟨h, w⟩⟩
 
-/-- one level step of `Image.pyramid(n_levels, downscale)`: `image.rescale(1.0 / downscale)` -/
+/-- an operation that does not forward the caller's order: the default of the callee is used -/
+def Plan2.withOrder (p : Plan2) (o : Interp) : Plan2 := { p with order := some o }
+
+/-- one level step of `Image.pyramid(n_levels, downscale)`: `image.rescale(1.0 / downscale)` — `pyramid` has no
+`order` parameter, so every level is resampled with `rescale`'s default order 1 -/
 def pyramidStep2 (h w : Nat) (downscale : Rat) : Except Err Plan2 :=
-  if downscale = 0 then .error .value else rescalePlan2 h w (1 / downscale) (1 / downscale) .ceil
+  if downscale = 0 then .error .value
+  else match rescalePlan2 h w (1 / downscale) (1 / downscale) .ceil with
+    | .error e => .error e
+    | .ok p => .ok (p.withOrder .linear)
 
 /-- image, mask and landmarks of level `k` of the pyramid (level 0 = the image itself) -/
 def pyramid2 (downscale : Rat) (o : Interp) : Nat → Img2 × Img2 × List V2 → Except Err (Img2 × Img2 × List V2)
